@@ -146,6 +146,19 @@ Theorem C16_small_space_final_pass_targets :
 Proof. exact small_space_sink_ok. Qed.
 Print Assumptions C16_small_space_final_pass_targets.
 
+(* WHOLE class-typed arguments as link targets (link(src, "n") with add_argument("--n", type=Optional[Base])): one such argument
+   at every declaration position of every layout with <= 2 constructed objects (21 layouts), every 1- and 2-link sequence of
+   which at least one link targets the whole argument (source: any component, object or attribute, compute_fn or not; the
+   other link into any constructed object or the argument), both variants of the code.  The argument is no component (its
+   action is replaced by the link action), nothing is constructed for it, the final pass type-checks and writes the value:
+   inside the guard the returned cfg holds exactly the source object / attribute / compute_fn result under "n", every source
+   was constructed before, every class exactly once. *)
+Theorem C16_small_space_whole_argument_targets :
+  forall shs ls, In shs layouts_whole -> In ls (link_seqs_whole (decls_from 0 shs)) ->
+    (case_ok nofix (decls_from 0 shs, ls) && case_ok_fixed (decls_from 0 shs, ls)) = true.
+Proof. exact small_space_whole_ok. Qed.
+Print Assumptions C16_small_space_whole_argument_targets.
+
 (* histories with rejections: every 3-link sequence over the layouts with <= 2 constructed objects (25,120 cases, both
    variants), every rejection caught and the remaining links still added: inside the guard (evaluated on the accepted
    links) exactly the links that close a cycle between the objects are rejected and the final construction obeys the
@@ -226,6 +239,28 @@ Example C16_final_pass_target_example :
   link_spec_ok ex_sink_ds ex_sink_ls (run allfix ex_sink_ds ex_sink_ls) = true /\
   run nofix ex_sink_ds ex_sink_ls = (OExc, []) /\ link_class nofix ex_sink_ds ex_sink_ls = 2%N /\
   In [ShGI; ShGN] layouts_sink /\ In ex_sink_ls (link_seqs_sink ex_sink_ds).
+Proof. vm_compute. repeat split; try reflexivity; repeat (try (left; reflexivity); right). Qed.
+
+(* a: a whole class-typed argument that is a link target; b: class group; c: class-typed argument.
+   c --> a (the whole argument receives the c object) and c.at --fn--> b.l1: c, compute_fn, b are constructed / called in
+   that order and the returned cfg holds the c object under "a".  An observation in which cfg["a"] was left empty is
+   refused by the spec; a source attribute holding 0 is refused by the type check of the target (the model raises like the
+   code: an ill-typed link, not part of the enumerated space). *)
+Definition ex_whole_ds : list decl := decls_from 0 [ShTI; ShG; ShS].
+Definition ex_whole_ls : list link :=
+  [{| l_id := 0; l_srcs := [nm 2]; l_target := nm 0; l_fn := false |}; mk 1 [nm 2; s_at] [nm 1] true].
+Example C16_whole_argument_target_example :
+  run allfix ex_whole_ds ex_whole_ls
+  = (OOk, [ENew (nm 2) []; ECall 1 [BAttr (nm 2)];
+           ENew (nm 1) [(1, VFn 1 [BAttr (nm 2)])]; ECfg (nm 0) [(0, VBase (BObj (nm 2)))]]) /\
+  link_class allfix ex_whole_ds ex_whole_ls = 0%N /\
+  link_spec_ok ex_whole_ds ex_whole_ls (run allfix ex_whole_ds ex_whole_ls) = true /\
+  link_spec_ok ex_whole_ds ex_whole_ls
+    (OOk, [ENew (nm 2) []; ECall 1 [BAttr (nm 2)];
+           ENew (nm 1) [(1, VFn 1 [BAttr (nm 2)])]; ECfg (nm 0) []]) = false /\
+  run allfix ex_whole_ds [{| l_id := 0; l_srcs := [key [nm 2; s_az]]; l_target := nm 0; l_fn := false |}] = (OExc, []) /\
+  In [ShTI; ShG; ShS] layouts_whole /\ length (link_seqs_whole ex_whole_ds) = 264 /\
+  existsb whole_target ex_whole_ls = true /\ whole_space_size = 3976.
 Proof. vm_compute. repeat split; try reflexivity; repeat (try (left; reflexivity); right). Qed.
 
 (* a -> b.l0 accepted; b.at -> a.l1 closes a cycle: rejected (call 1); the caller goes on: b -fn-> c.l2 is accepted, and
